@@ -28,7 +28,7 @@ ASSUMPTIONS = [
 
 SITES = [(5, 5, 5), (5, 13, 18), (13, 5, 18), (18, 18, 5), (12, 12, 11), (11, 19, 13), (19, 6, 11), (5, 12, 7)]
 IMG = (24, 24, 24)
-CHUNKS = ["numpy", "dask:whole", "dask:12", "dask:8", "dask:6", "dask:24,12,8", "dask:slab0:6", "dask:slab1:6", "dask:slab2:6", "dask:slab0:2"]
+CHUNKS = ["numpy", "dask:whole", "dask:12", "dask:8", "dask:10", "dask:irregular", "dask:24,12,8", "dask:slab0:6", "dask:slab1:6", "dask:slab2:6", "dask:slab0:2"]
 PICKERS = ["LoG", "DoG", "ZNCC"]
 DTYPES = ["float32", "float64", "int16", "uint8"]
 
@@ -72,6 +72,8 @@ def _as_array(a, kind):
     spec = kind.split(":")
     if spec[1] == "whole":
         return da.from_array(a, chunks=a.shape)
+    if spec[1] == "irregular":  # non-uniform chunk sizes along every axis
+        return da.from_array(a, chunks=((10, 14), (17, 7), (5, 8, 11)))
     if spec[1].startswith("slab"):
         ax = int(spec[1][4:])
         ch = list(a.shape)
